@@ -220,7 +220,7 @@ def run(prop, tier, seed, n_override=None):
     for i in range(0, n, per_batch):
         jobs.append((prop, tier, seed, idxs[i:i + per_batch], batch_timeout, False))
 
-    agg = {"faults": {}, "probes": {}, "counters": {}}
+    agg = {"faults": {}, "probes": {}, "counters": {}, "maxima": {}}
     states = set()
     nontrivial_hashes = set()
     all_hashes = set()
@@ -259,6 +259,8 @@ def run(prop, tier, seed, n_override=None):
                         _merge_counts(agg["faults"], st.get("faults"))
                         _merge_counts(agg["probes"], st.get("probes"))
                         _merge_counts(agg["counters"], st.get("counters"))
+                        for k, v in (st.get("maxima") or {}).items():
+                            agg["maxima"][k] = max(agg["maxima"].get(k, 0), v)
                         for s in st.get("states", ()):
                             states.add(s)
                         all_hashes.add(rec["case_hash"])
@@ -324,6 +326,7 @@ def run(prop, tier, seed, n_override=None):
         "probes_hit": agg["probes"],
         "probes_stuck_at_zero": sorted(k for k in getattr(mod, "PROBES", ()) if not agg["probes"].get(k)),
         "counters": agg["counters"],
+        "maxima": agg["maxima"],
         "distinct_states": len(states),
         "distinct_states_measure": getattr(mod, "STATE_MEASURE", ""),
         "runs_per_hour": round(evaluations / max(wall, 1e-9) * 3600),
